@@ -441,7 +441,7 @@ func c05CheckBundle(c *rt.C, b *jBundle, id, class string) {
 // "descriptions and every annotation present").
 func decorate(b *jBundle) {
 	descs := []string{"A plain description", "With \"quotes\" and a \\ backslash", "Two lines\nof text", "Paragraph one\n\nParagraph two", "Unicode: é 日本語", "Slashes // and /* stars */", "Trailing space ",
-		"100% of %d items, %s and %% signs", "Ends with a percent %"}
+		"100% of %d items, %s and %% signs", "Ends with a percent %", "Beyond the BMP: 🔥 𝒳 🇳🇿", "Control \u0001 and \u007f and tab\there"}
 	i := 0
 	next := func() string { i++; return descs[i%len(descs)] }
 	var inDecl func(d *jDecl, top bool)
@@ -513,7 +513,7 @@ func runC05(r *rt.Runner) {
 	// option values: strings needing escapes, numeric boundaries, nested messages, repeated and map fields, enums
 	r.Do("options/escapes", func(c *rt.C) {
 		var fields []*jF
-		for i, p := range []string{`^"quoted"$`, `^back\\slash$`, "^tab\\tchar$", "^[a-z]{2,3}$", "^unié$", "^it's$", "^percent%d$", "^/slashes//$", `^\d+\.\d+$`} {
+		for i, p := range []string{`^"quoted"$`, `^back\\slash$`, "^tab\\tchar$", "^[a-z]{2,3}$", "^unié$", "^it's$", "^percent%d$", "^/slashes//$", `^\d+\.\d+$`, "^🔥+$", "^[𝒳-𝒵]$"} {
 			fields = append(fields, fld(fmt.Sprintf("pat%c", 'A'+i), tScalar(kString).with(func(t *jT) { t.Rules = &jRules{Pattern: pS(p)} })))
 		}
 		fields = append(fields, fld("bigMax", tInt("UINT64").with(func(t *jT) { t.Rules = &jRules{Max: pI(9223372036854775807)} })))
@@ -523,7 +523,7 @@ func runC05(r *rt.Runner) {
 		fields = append(fields, fld("tiny", tFloat("FLOAT64").with(func(t *jT) { t.Rules = &jRules{FMin: pF(0.000001234), FMax: pF(12345678901234567890)} })))
 		fields = append(fields, fld("third", tFloat("FLOAT64").with(func(t *jT) { t.Rules = &jRules{FMin: pF(1.0 / 3.0), FMax: pF(16777217)} })))
 		fields = append(fields, fld("when", tScalar(kDate).with(func(t *jT) { t.Rules = &jRules{SMin: pS("2020-01-01"), SMax: pS("2030-01-01"), SExMax: pB(true)} })))
-		info := map[string]map[string]string{"RED": {"hex": "ff\"00\\00", "name": "réd", "z": "", "ab": "x\ny"}}
+		info := map[string]map[string]string{"RED": {"hex": "ff\"00\\00", "name": "réd", "z": "", "ab": "x\ny", "fire": "🔥 hot 𝒳", "ctl": "bell\u0007 esc\u001b"}}
 		b := elemsBundle(&jElem{Decl: &jDecl{Kind: kObject, Name: "Escapes", Fields: fields}}, &jElem{Decl: &jDecl{Kind: kEnum, Name: "Color", Options: []string{"RED", "GREEN"}, OptInfo: info}})
 		c05CheckBundle(c, b, "options/escapes", "option-values")
 		c.Feature("c05:option-values")
